@@ -606,3 +606,52 @@ func H_C13_outNames(scope, pair int) {
 		verifAssert(err == nil, "C13: outputs with distinct paths are accepted")
 	}
 }
+
+// H_C03_disableSiblings(kind, depth): two sibling calls inside a pipeline that
+// is itself disabled by `depth` enclosing conditions (the slice of inherited
+// conditions is shared by the siblings, and Go's append leaves spare capacity
+// at some lengths: here the slice is given capacity depth+1).  Each sibling
+// has its own condition: kind 0 a reference, 1 a reference split by an
+// enclosing map call, 2 a per-fork array of references, 3 a per-fork map.
+//
+//	C03: the conditions under which a call is disabled are its own condition
+//	     and the inherited ones; resolving a sibling's condition never changes
+//	     them (a call must not run, or be skipped, on its sibling's condition).
+func H_C03_disableSiblings(kind, depth int) {
+	inherited := make([]Exp, depth, depth+1)
+	for i := range inherited {
+		inherited[i] = &RefExp{Kind: KindCall, Id: "OUTER" + string(rune('0'+i)), OutputId: "off"}
+	}
+	mk := func(name string) Exp {
+		ref := &RefExp{Kind: KindCall, Id: name, OutputId: "flag"}
+		call := &CallStm{Id: "W" + name, DecId: "W"}
+		switch kind {
+		case 0:
+			return ref
+		case 1:
+			return &SplitExp{Call: call, Value: ref, Source: ref}
+		case 2:
+			a := &ArrayExp{Value: []Exp{ref, &BoolExp{Value: false}}}
+			return &SplitExp{Call: call, Value: a, Source: a}
+		}
+		m := &MapExp{Kind: KindMap, Value: map[string]Exp{"a": ref, "b": &BoolExp{Value: false}}}
+		return &SplitExp{Call: call, Value: m, Source: m}
+	}
+	x, y := mk("X"), mk("Y")
+	gotX, err := resolveDisableExp(x, inherited)
+	verifAssert(err == nil, "references are legal disabling conditions")
+	snapshot := append([]Exp(nil), gotX...)
+	gotY, err := resolveDisableExp(y, inherited)
+	verifAssert(err == nil, "references are legal disabling conditions")
+	verifCover("sibling conditions resolved")
+	verifAssert(len(gotX) == depth+1 && len(gotY) == depth+1, "C03: a call's own run-time condition is added to the inherited ones")
+	for i := range snapshot {
+		verifAssert(gotX[i] == snapshot[i], "C03: resolving a sibling call's disabling condition does not change this call's conditions")
+	}
+	if len(gotX) == depth+1 && len(gotY) == depth+1 {
+		verifAssert(gotX[depth] != gotY[depth], "C03: each of two sibling calls is disabled by its own condition, not by its sibling's")
+	}
+	for i := 0; i < depth; i++ {
+		verifAssert(inherited[i].(*RefExp).Id == "OUTER"+string(rune('0'+i)), "the inherited conditions are not modified")
+	}
+}
